@@ -3,8 +3,8 @@
 proof      Props/C16.lean over Model/Visibility.lean + Model/Graph.lean.
 tie (L1)   generated worlds (package layout × placements of qualified references and impls): the real
            whole-program `pipeline::compile` and the model must agree on accept / reject, on the graph error
-           (class and names) and on the set of diagnostic classes {not-imported, unresolved, orphan, dup-local,
-           dup-cross} (`Internal error` follow-ups count as `unresolved`).
+           (class and names) and on the set of diagnostic classes {not-imported, unresolved, orphan, inherent-nonlocal,
+           dup-local, dup-cross} (`Internal error` follow-ups count as `unresolved`).
 oracle     independent of the model, straight from the property text: a world in which a reachable package
            names a package it does not import, declares an orphan or duplicate impl, or whose reachable graph
            has a cycle / missing / misdeclared directory MUST be rejected by the real compiler; the three copies
@@ -75,7 +75,7 @@ def oracle(world):
         return [("graph", "import-cycle")], order
     keys = {}
     for q in order:
-        keys.setdefault((q, q, "S"), []).append(q)
+        keys.setdefault((q, "nom", q, "-", "S"), []).append(q)
         for it in pk[q]["items"]:
             imps = pk[q]["imports"] if it[1] == "0" else []
             if it[0] == "use":
@@ -89,21 +89,31 @@ def oracle(world):
                 elif form == "fn" and it[4] == "q" and q == "Main":
                     reasons.append(("missing-item", "Main::x is not how Main names its own items"))
             else:
-                tr, ty, which = it[2], it[3], it[4]
+                # (impl file kind trait-owner shape head arg which)
+                kind, tr, shape, head, arg, which = it[2], it[3], it[4], it[5], it[6], it[7]
+                named = ([tr] if kind == "trait" else []) + [n for n in (head, arg) if n not in ("-", "int32")]
                 bad = False
-                for n in (tr, ty):
-                    if n not in ("int32", q) and n not in imps:
+                for n in named:
+                    if n != q and n not in imps:
                         reasons.append(("isolation", f"{q} names {n} in an impl without importing it"))
                         bad = True
                 if bad:
                     continue
-                if tr != q and ty != q:
-                    reasons.append(("orphan", f"{q}: impl {tr}::T for {ty}: neither is local"))
+                # the package the target type belongs to: the owner of its outermost nominal type; Vec, Ref,
+                # tuples, arrays, function types, `dyn` and primitives belong to no user package
+                owner = head if shape in ("nom", "gen") else None
+                what = f"{shape}(head={head},arg={arg})"
+                if kind == "inherent":
+                    if owner != q:
+                        reasons.append(("inherent-nonlocal", f"{q}: inherent impl for {what}, a type that is not its own"))
                     continue
-                keys.setdefault((tr, ty, which), []).append(q)
+                if tr != q and owner != q:
+                    reasons.append(("orphan", f"{q}: impl {tr}::T for {what}: neither the trait nor the type is its own"))
+                    continue
+                keys.setdefault((tr, shape, head, arg, which), []).append(q)
     for k, owners in keys.items():
         if len(owners) > 1:
-            reasons.append(("duplicate-impl", f"impl {k[0]}::T for {k[1]}::{k[2]} declared in {owners}"))
+            reasons.append(("duplicate-impl", f"impl {k[0]}::T for {k[1]}(head={k[2]},arg={k[3]},{k[4]}) declared in {owners}"))
     return reasons, order
 
 
@@ -161,9 +171,10 @@ def run(ctx):
                         rel = "transitive-only" if it[3] in seen_t else "exists-not-imported"
                     key = f"use:{it[2]}:{rel}" + (":file-without-imports" if it[1] == "1" else "")
                 else:
-                    loc = ("trait-own" if it[2] == p[0] else "trait-foreign") + "+" + \
-                          ("type-builtin" if it[3] == "int32" else "type-own" if it[3] == p[0] else "type-foreign")
-                    key = "impl:" + loc
+                    rel = lambda n: "-" if n == "-" else "prim" if n == "int32" else "own" if n == p[0] else "foreign"
+                    where = "root" if p[0] == "Main" else "lib"
+                    tr = "inherent" if it[2] == "inherent" else "trait-" + rel(it[3])
+                    key = f"impl:{where}:{tr}:{it[4]}:head-{rel(it[5])}:arg-{rel(it[6])}"
                 placements[key] = placements.get(key, 0) + 1
         if len(world) > 2 and any(len(p[3]) > 1 for p in world[1:]):
             distinct.add(sexp)
